@@ -58,7 +58,8 @@ def coverage(db, ctx):
         raise AnchorMissing("build_lattice: NOOOVBOW guard around the provider loop")
     po = db.one("provide_oovs", "LatticeBuilder")
     c = [c for c, _ in walk(po.hir) if c.get("k") == "MethodCall" and c.get("method") == "provide_oov"]
-    ok = bool(c) and [render(a) for a in c[0]["args"]][:2] == ["self.input", "char_offset"]
+    from ..inline import pcanon
+    ok = bool(c) and [pcanon(po, render(a), "char_offset", "other", "plugin") for a in c[0]["args"]][:2] == ["self.input", "char_offset"]
     ins = any(is_call(x) and path_ends(callee(x), "Lattice::insert") for x, _ in walk(po.hir))
     # the loop visits [len before the call, len before the call + number the provider reports)
     from ..inline import range_bounds
@@ -115,7 +116,12 @@ def node_shape(db, ctx):
                         ps_ = db.fns[fk].info.get("params", [])
                         if i < len(ps_):
                             names.add(ps_[i].get("name"))
-                    ok_begin = "offset" in names or "start" in names and "offset" in names
+                    # ... by position: the first usize parameter of a provide_oov* function is the offset it was given
+                    def _is_offset(fk, i):
+                        ps2 = db.fns[fk].info.get("params", [])
+                        first_usize = next((j for j, p2 in enumerate(ps2) if isinstance(p2, dict) and (p2.get("ty") or "") == "usize"), None)
+                        return "provide_oov" in fk.split("::")[-1] and first_usize == i
+                    ok_begin = any(_is_offset(fk, i) for fk, i in params)
                     wid = peel(a[5])
                     ok_wid = wid.get("k") == "Call" and path_ends(wid.get("callee"), "WordId::oov")
                     wo = origins(db, f, wid["args"][0], depth=0) if ok_wid else set()
@@ -173,8 +179,16 @@ def invoke(db, ctx):
     for n, ps in walk(f.hir):
         if n.get("k") == "If" and exit_kind(n["then"]) == "continue":
             at = atoms(n["cond"], True)
-            s = sorted(("" if p else "!") + render(a) for a, p in at)
-            if s == ["!cinfo.is_invoke", "other_words.not_empty()"]:
+            # by role: (the class's is_invoke field, negated) and (not_empty() of the CreatedWords parameter)
+            def _kind(a, p):
+                a = peel(a)
+                if a.get("k") == "Field" and a.get("name") == "is_invoke":
+                    return "!is_invoke" if not p else "is_invoke"
+                if a.get("k") == "MethodCall" and a.get("method") in ("not_empty", "is_empty") and "CreatedWords" in (peel(a["recv"]).get("ty") or "") \
+                        and peel(a["recv"]).get("res") == "local":
+                    return "others" if (a["method"] == "not_empty") == p else "!others"
+                return "?" + render(a)
+            if sorted(_kind(a, p) for a, p in at) == ["!is_invoke", "others"]:
                 ok = True
     ctx.ob("skip-iff-not-invoke-and-others", ok, "`if !cinfo.is_invoke && other_words.not_empty() { continue }`: %s" % ok, fn=f)
     # what reaches get_oov_node(oov, start, end), through helpers and hoisted lets, and under which conditions
@@ -183,8 +197,10 @@ def invoke(db, ctx):
     RUN = r"\w+\.cat_continuous_len\(offset\)"
     DIST = r"\w+\.char_distance\(offset, \w+\)"
     grp, per = [], []
+    from ..inline import pcanon
+    _pc = lambda t: pcanon(f, t, "input", "offset", "other_words", "nodes")        # parameters by position
     for e in expanded_calls(db, f, "get_oov_node"):
-        a = e["args"]
+        a = [_pc(x) for x in e["args"]]
         if len(a) < 4:
             continue
         (grp if any(p and c.endswith(".is_group") for c, p in e["conds"]) else per).append((a[2], a[3]))
@@ -201,7 +217,7 @@ def invoke(db, ctx):
             if op in ("Lt", "Le"):
                 op, l, r = {"Lt": "Gt", "Le": "Ge"}[op], r, l
             lim = peel_casts(r)
-            if op == "Gt" and re.fullmatch(DIST, nf(l)) and lim.get("k") == "Path":
+            if op == "Gt" and re.fullmatch(DIST, _pc(nf(l))) and lim.get("k") == "Path":
                 # the values the limit can hold: the initial value of a `let mut` (later decremented), or the branch values of an
                 # `if`-valued immutable let; each must be the run length or the run length minus one
                 from ..db import deref_all
@@ -219,10 +235,10 @@ def invoke(db, ctx):
                             return tails(x["expr"])
                         return [x]
                     vals = tails(d)
-                if vals and all(re.fullmatch(r"%s|\(%s - 1\)" % (RUN, RUN), nf(v)) for v in vals):
+                if vals and all(re.fullmatch(r"%s|\(%s - 1\)" % (RUN, RUN), _pc(nf(v))) for v in vals):
                     brk = True
     ctx.ob("run-bounded", brk, "per-length loop breaks when char_distance(offset, i) > (remaining) run length, the limit being initialised from cat_continuous_len(offset): %s" % brk, fn=f)
-    cats = any(fl and "cat_at_char(offset)" in render(fl[0]) for n, fl, ps in _loops(f))
+    cats = any(fl and "cat_at_char(offset)" in _pc(render(fl[0])) for n, fl, ps in _loops(f))
     ctx.ob("iterates-all-classes", cats, "candidates are generated for every class in cat_at_char(offset): %s" % cats, fn=f)
 
 
